@@ -5,11 +5,13 @@ from specs.path import *
 from specs.prim import *
 
 set_scope('contracts.path')
+import os
+_MAXLEN = 12 if os.environ.get('VERIF_TIER', 'quick') == 'thorough' else 10
 
 contract('pyx12.path.X12Path.__init__',
          params={'self': Obj('pyx12.path.X12Path'), 'path_str': Str},
-         split_len={'path_str': 12},
-         requires=['len(path_str) <= 12'],
+         split_len={'path_str': _MAXLEN},
+         requires=['len(path_str) <= %d' % _MAXLEN],
          options={'abstract_vec_split': True},
          returns=NoneT,
          ensures=['(not wf_path(path_str)) or self.__repr__() == path_str',
